@@ -124,7 +124,11 @@ std::vector<ChunkStore::SnapshotEntry> ChunkStore::snapshot() const {
     std::vector<SnapshotEntry> result;
     result.reserve(chunks_.size());
 
+    const auto now = std::chrono::steady_clock::now();
     for (const auto& [key, record] : chunks_) {
+        if (now >= record.expires_at) {
+            continue;  // expired but not swept yet: not part of any listing
+        }
         SnapshotEntry entry{};
         entry.id = record.id;
         entry.key = key;
